@@ -707,6 +707,141 @@ def _propagate_new_locals(fn: ast.FunctionDef, ref_locals: list[str], log: list[
             return
 
 
+def _eval_order(e: ast.AST, once: bool, out: list) -> None:
+    """post-order list of (node, evaluated-unconditionally-exactly-once) following Python's evaluation order"""
+    def go(x, o=once):
+        if x is not None:
+            _eval_order(x, o, out)
+    if isinstance(e, ast.Call):
+        go(e.func)
+        for a in e.args:
+            go(a)
+        for k in e.keywords:
+            go(k.value)
+    elif isinstance(e, ast.BoolOp):
+        go(e.values[0])
+        for v in e.values[1:]:
+            go(v, False)
+    elif isinstance(e, ast.IfExp):
+        go(e.test)
+        go(e.body, False)
+        go(e.orelse, False)
+    elif isinstance(e, ast.Compare):
+        go(e.left)
+        go(e.comparators[0])
+        for c in e.comparators[1:]:
+            go(c, False)
+    elif isinstance(e, (ast.ListComp, ast.SetComp, ast.GeneratorExp, ast.DictComp)):
+        go(e.generators[0].iter)
+        for x in ast.iter_child_nodes(e):
+            if isinstance(x, ast.comprehension):
+                for y in ast.iter_child_nodes(x):
+                    if y is not e.generators[0].iter:
+                        go(y, False)
+            else:
+                go(x, False)
+    elif isinstance(e, ast.Lambda):
+        go(e.body, False)
+    elif isinstance(e, ast.Dict):
+        for k, v in zip(e.keys, e.values):
+            go(k)
+            go(v)
+    else:
+        for x in ast.iter_child_nodes(e):
+            if isinstance(x, (ast.expr, ast.keyword, ast.comprehension, ast.slice if hasattr(ast, "slice") else ast.expr)):
+                go(x)
+    out.append((e, once))
+
+
+def _head_exprs(st: ast.stmt) -> list[ast.AST] | None:
+    "the expressions of a statement that are evaluated first, unconditionally and once, in order"
+    if isinstance(st, (ast.Return, ast.Expr)):
+        return [st.value] if st.value is not None else []
+    if isinstance(st, ast.Assign):
+        return [st.value, *st.targets]
+    if isinstance(st, ast.AnnAssign):
+        return [st.value, st.target] if st.value is not None else None
+    if isinstance(st, ast.AugAssign) and isinstance(st.target, ast.Name):
+        return [st.value]
+    if isinstance(st, ast.If):
+        return [st.test]
+    if isinstance(st, ast.For):
+        return [st.iter]
+    if isinstance(st, ast.Raise):
+        return [st.exc] if st.exc is not None and st.cause is None else None
+    if isinstance(st, ast.With) and len(st.items) == 1:
+        return [st.items[0].context_expr]
+    return None
+
+
+def _forward_substitute_single_use(fn: ast.FunctionDef, ref_locals: list[str], log: list[str]) -> bool:
+    """R2b (in place): `v = E` (v new w.r.t. the reference, bound once, read once) immediately followed by the statement T that reads
+    it, where the read is evaluated unconditionally exactly once and every sub-expression of T evaluated before it is pure, is
+    substituted into T.  E may have side effects: it is still evaluated at the same point of the effect order."""
+    changed = False
+    for _ in range(30):
+        progressed = False
+        new = [n for n in local_names(fn) if n not in ref_locals]
+        if not new:
+            break
+        loads: dict[str, int] = {}
+        stores: dict[str, int] = {}
+        for n in ast.walk(fn):  # nested scopes included: a closure reading v counts as a use
+            if isinstance(n, ast.Name):
+                d = loads if isinstance(n.ctx, ast.Load) else stores
+                d[n.id] = d.get(n.id, 0) + 1
+        for parent in [fn, *_walk_fn(fn)]:
+            for fld in ("body", "orelse", "finalbody"):
+                blk = getattr(parent, fld, None)
+                if not (isinstance(blk, list) and blk and isinstance(blk[0], ast.stmt)):
+                    continue
+                for i in range(len(blk) - 2, -1, -1):
+                    st = blk[i]
+                    if not (isinstance(st, (ast.Assign, ast.AnnAssign)) and getattr(st, "value", None) is not None):
+                        continue
+                    tg = st.targets if isinstance(st, ast.Assign) else [st.target]
+                    if not (len(tg) == 1 and isinstance(tg[0], ast.Name)):
+                        continue
+                    v = tg[0].id
+                    if v not in new or stores.get(v, 0) != 1 or loads.get(v, 0) != 1:
+                        continue
+                    if any(isinstance(x, ast.Name) and x.id == v for x in ast.walk(st.value)):
+                        continue
+                    if any(isinstance(x, (ast.Await, ast.Yield, ast.YieldFrom, ast.NamedExpr)) for x in ast.walk(st.value)):
+                        continue
+                    T = blk[i + 1]
+                    heads = _head_exprs(T)
+                    if heads is None:
+                        continue
+                    order: list = []
+                    for h in heads:
+                        _eval_order(h, True, order)
+                    pos = [k for k, (x, o) in enumerate(order) if isinstance(x, ast.Name) and x.id == v and isinstance(x.ctx, ast.Load)]
+                    if len(pos) != 1 or not order[pos[0]][1]:
+                        continue
+                    before = [x for x, o in order[:pos[0]]]
+                    if any(isinstance(x, (ast.Await, ast.Yield, ast.YieldFrom, ast.NamedExpr)) for x in before):
+                        continue
+                    if any(isinstance(x, ast.Call) and not _is_pure(ast.Call(func=x.func, args=[], keywords=[])) for x in before):
+                        continue
+                    # names read by E must not be re-bound by T before the use (walrus excluded above; targets are bound after the value)
+                    use = order[pos[0]][0]
+                    if isinstance(T, (ast.Assign, ast.AnnAssign)) and not any(use is y for y in ast.walk(T.value)):
+                        continue  # use inside a target: the value expression is evaluated before it
+                    _Subst({v: st.value}).visit(T)
+                    del blk[i]
+                    log.append(f"forward-substituted single-use local `{v}`")
+                    progressed = changed = True
+                    break
+                if progressed:
+                    break
+            if progressed:
+                break
+        if not progressed:
+            break
+    return changed
+
+
 def _recover_renames(fn: ast.FunctionDef, ref_locals: list[str], log: list[str]) -> None:
     "R3 (in place)"
     cur = local_names(fn)
@@ -1208,6 +1343,8 @@ def normalize_module(tree: ast.Module, modname: str, log: list[str] | None = Non
             rl = ref[q]["locals"]
             _recover_renames_by_position(f, rl, log)
             _propagate_new_locals(f, rl, log)
+            if _forward_substitute_single_use(f, rl, log):
+                _propagate_new_locals(f, rl, log)
             if _unroll_const_loops(f, log):
                 _propagate_new_locals(f, rl, log)
             _recover_renames(f, rl, log)
